@@ -25,6 +25,16 @@ CHECKS = {
          "equalities never lost, old handles stay usable and denote their term, slot sets shrink, progress measure moves in its documented direction", "5 C13"),
 }
 
+SMALL_NOTE = ("TLC explores the small specification exhaustively within the stated constants and emits its transition table / "
+              "behaviours; the Rust type is bound to it by replaying every emitted behaviour (and, where stated, by TLC "
+              "validating recorded traces of the real code). Trusted: TLC, the JSON encoding, the harness.")
+CHECKS.update({
+ "C19": ("SlotMap.tla + TLC: all 625 maps over 4 slots, transition table replayed along all operation sequences <= 5 on the real SlotMap; binary ops over all 64x64 pairs; TraceSlotMap.tla validates recorded random long sequences (impl->spec)",
+         "every public SlotMap operation agrees with the reference finite map; eq/hash/ord are construction-path independent", "5 C19"),
+ "C17": ("SlotTable.tla + TLC: all interleavings of fresh/numeric/named to depth 4/5 with invariants FreshIsNew, NamesInjective, RoundTrip; every behaviour replayed in a fresh thread",
+         "fresh slots are new, distinct names denote distinct slots, print/parse round-trips, on every interleaving of the bounded model", "5 C17"),
+})
+NOTES = {"C19": SMALL_NOTE, "C17": SMALL_NOTE}
 PENDING = {}  # filled below for every property without a check yet
 
 man = {
@@ -35,6 +45,7 @@ man = {
    "enable": "rustflags in /verif/harness/.cargo/config.toml: --cfg slotted_egraphs_verif --check-cfg cfg(slotted_egraphs_verif); the harness depends on /repo by path and patches slotted-egraphs-derive to /repo/slotted-egraphs-derive",
    "baseline_off_cmd": "cd /repo && cargo test --workspace --no-fail-fast --offline",
    "source_commits": [],
+   "fix_commits": ["c3020f8"],
    "add_only": True,
  },
  "engines": [
@@ -59,7 +70,7 @@ for p in props:
             "replay_cmd_template": "bin/check --replay {path}",
             "engine": "tlc+replay",
             "level_claimed": {"category": "model_checking", "text": text, "design_ref": "DESIGN.md section " + ref},
-            "level_note": CC_NOTE,
+            "level_note": NOTES.get(pid, CC_NOTE),
             "technique": tech,
         })
     else:
